@@ -4,6 +4,7 @@ use serde_json::{json, Value};
 use std::cmp::Ordering;
 
 mod apath_ops;
+mod backupops;
 mod gcops;
 mod rawarchive;
 mod roundtrip;
@@ -18,6 +19,7 @@ fn main() {
         "stitch" => rawarchive::run_stitch(&sc),
         "roundtrip" => roundtrip::run(&sc),
         "gc" => gcops::run(&sc),
+        "backup" => backupops::run(&sc),
         other => json!({"error": format!("unknown scenario kind {other}")}),
     };
     println!("{}", serde_json::to_string(&out).unwrap());
